@@ -1,6 +1,6 @@
 (* C08 - Presolve verdicts are true; postsolve maps optimal solutions to optimal ones.
 
-   What is proved here (statements only; proofs in Postsolve_Proofs RowSingleton_Proofs FreeColSingleton_Proofs Doubleton_Proofs.v): for the post-solve steps of SPxMainSM, modelled in
+   What is proved here (statements only; proofs in Postsolve_Proofs RowSingleton_Proofs RowSingleton_Signs FreeColSingleton_Proofs Doubleton_Proofs.v): for the post-solve steps of SPxMainSM, modelled in
    PostsolveModel.v case split by case split (the model is replayed against `PostStep::execute` on every run of the
    check), and for LPs / vectors of EVERY dimension:
      - identities:   if  s = A'x  and  r = c' - A'^T y  hold for the LP after the reduction, then after `execute` they hold
@@ -14,7 +14,7 @@
    The simplifier works in minimisation form; comparisons are the exact instance of the model (`exact_cmps`) wherever a
    theorem depends on them, most statements hold for every comparison record `c`. *)
 From Coq Require Import QArith Qabs List Bool Lia.
-From SV Require Import Vec LP Cert Cert_Proofs PostsolveModel Postsolve_Proofs RowSingleton_Proofs FreeColSingleton_Proofs Doubleton_Proofs.
+From SV Require Import Vec LP Cert Cert_Proofs PostsolveModel Postsolve_Proofs RowSingleton_Proofs RowSingleton_Signs FreeColSingleton_Proofs Doubleton_Proofs.
 Import ListNotations.
 Local Open Scope Q_scope.
 
@@ -162,6 +162,29 @@ Example C08_RowSingleton_example :
   let t' := exec_RowSingleton (exact_cmps (inject_Z (10 ^ 100))) 1 1 1 (-(inject_Z (10 ^ 100))) 6 2 (sp_col P 1) 0 (inject_Z (10 ^ 100)) 0 t in
   prim_ident_b (red_remove_row P 1) t && dual_ident_b (red_remove_row P 1) t && prim_ident_b P t' && dual_ident_b P t'
   && vstat_eqb (grs t' 1) BASIC = true.
+Proof. vm_compute. reflexivity. Qed.
+
+(* RowSingletonPS, branch "the upper bound the singleton row implies equals the variable's own LOWER bound" (x_j is pinned at it;
+   exact comparisons): the sign of the reduced cost decides.  Negative: the row holds x_j down - the column becomes basic and the row gets
+   the multiplier val / a_ij, negative with the row's upper side tight for a_ij > 0, positive with its lower side tight for a_ij < 0.
+   Otherwise the own bound holds it: the row is basic with multiplier 0 and x_j stays non-basic at its lower bound with a non-negative
+   reduced cost.  In both cases the multipliers have the signs complementary slackness needs. *)
+Theorem C08_RowSingleton_opposite_bound_signs : forall inf i j lhs rhs aij val oldLo oldUp t0,
+  let newLo := if Qltb' 0 aij then lhs / aij else rhs / aij in
+  let newUp := if Qltb' 0 aij then rhs / aij else lhs / aij in
+  gcs t0 j = FIXED -> (Qleb newLo oldLo && Qleb oldUp newUp) = false -> Qeq_bool newLo newUp = false -> Qeq_bool newLo oldUp = false ->
+  Qeq_bool newUp oldLo = true -> ~ aij == 0 -> gx t0 j == oldLo -> val == gr t0 j ->
+  let t' := rs_decide (exact_cmps inf) t0 i j lhs rhs aij val oldLo oldUp 0 in
+  (gy t' i < 0 -> rhs == aij * gx t' j) /\ (0 < gy t' i -> lhs == aij * gx t' j) /\
+  (0 < gr t' j -> oldLo == gx t' j) /\ ~ gr t' j < 0.
+Proof. exact upper_meets_lower_signs. Qed.
+Print Assumptions C08_RowSingleton_opposite_bound_signs.
+
+(* the hypotheses are satisfiable: 0 <= x_0 <= 10 with the singleton row x_0 <= 0 (lhs -100 stands for a remote side), reduced cost -2 *)
+Example C08_RowSingleton_opposite_bound_example :
+  let t0 := mkst [0] [0] [0] [-2] [FIXED] [UNDEFINED] in
+  let t' := rs_decide (exact_cmps (inject_Z (10 ^ 100))) t0 0 0 (-100) 0 1 (-2) 0 10 0 in
+  Qeq_bool (gy t' 0) (-2) && Qeq_bool (gr t' 0) 0 && vstat_eqb (gcs t' 0) BASIC && vstat_eqb (grs t' 0) ON_UPPER = true.
 Proof. vm_compute. reflexivity. Qed.
 
 (* FreeColSingletonPS: column j occurs in row i only (a_ij <> 0) and was free: row i and column j were removed and the
